@@ -8,7 +8,8 @@ PROPERTIES_MODULE = "Properties.C17"
 COQ_TARGETS = ["Properties/C17.vo", "Model/FYShuffleRun.vo"]
 THEOREMS = ["C17_index_bound_binary64", "C17_index_bound_model", "C17_block_is_permutation",
             "C17_reset_forgets", "C17_reset_as_new", "C17_new_and_reset_are_block_starts",
-            "C17_every_order_has_exactly_one_choice_vector", "C17_choice_vectors_counted", "C17_choice_is_identity_in_range"]
+            "C17_every_order_has_exactly_one_choice_vector", "C17_choice_vectors_counted", "C17_choice_is_identity_in_range",
+            "C17_cells_are_balanced_intervals", "C17_pick_cells"]
 # only the Flocq/Reals theorem uses the standard library's real-number axioms
 AXIOMS_ALLOWED = ["ClassicalDedekindReals.sig_forall_dec", "ClassicalDedekindReals.sig_not_dec",
                   "FunctionalExtensionality.functional_extensionality_dep", "Classical_Prop.classic"]
@@ -20,8 +21,9 @@ TRUSTED_BASE = [
     "the harness feeds raw 64-bit outputs through the real FYshuffle::next)",
     "harness/src/fy.rs (scripted RngCore)",
 ]
-ASSUMPTIONS = ["uniformity of the generator's outputs is assumed, not proved; the m!-uniformity clause is decided only "
-               "as: each draw picks an index in [lastidx, m) by truncating fl(xsi*(m-lastidx)), every block is a permutation",
+ASSUMPTIONS = ["uniformity of the generator's outputs is assumed, not proved; under it every index choice is within 2^-51 of uniform "
+               "(C17_cells_are_balanced_intervals: the cells of fl(xsi*(m-lastidx)) are intervals of 2^52/n - 1 .. 2^52/n + 2 values of the "
+               "52-bit fraction), every order comes from exactly one vector of index choices and every block is a permutation",
                "m <= 2^53 (usize sizes that a Vec can hold)"]
 
 HEADER = ("From Coq Require Import ZArith List. Import ListNotations.\n"
